@@ -118,7 +118,7 @@ let string_of_site = function
   | HNextNeg -> "next-neg" | HStrIndex -> "str-index" | HStrSlice -> "str-slice"
   | HBigRatNil -> "bigrat-nil" | HUnhashable -> "unhashable"
   | HRefNilSet -> "ref-nil-set" | HRefNilKind -> "ref-nil-kind" | HObjMapField -> "objmap-field"
-  | HObjMapKey -> "objmap-key" | HClientCount -> "client-count"
+  | HObjMapKey -> "objmap-key" | HClientCount -> "client-count" | HArrayNeg -> "array-neg"
 
 let string_of_bigk = function BInt -> "bigint" | BFloat -> "bigfloat" | BRat -> "bigrat"
 let string_of_okind = function
